@@ -552,7 +552,7 @@ pub fn under_aligned_cases(first: usize) -> Vec<(String, Vec<(ItemPath, Module)>
         let wides: &[(&str, usize)] = if ptrw == 8 { &[("u128", 16), ("i128", 16)] } else { &[("u64", 8), ("i64", 8), ("f64", 8), ("u128", 16)] };
         let word = if ptrw == 8 { "u64" } else { "u32" };
         for (wide, wsz) in wides {
-            for inner_shape in 0..6usize {
+            for inner_shape in 0..8usize {
                 for inner_align in [None, Some(ptrw), Some(*wsz)] {
                     for outer_shape in 0..5usize {
                         for outer_align in [None, Some(*wsz)] {
@@ -570,11 +570,20 @@ pub fn under_aligned_cases(first: usize) -> Vec<(String, Vec<(ItemPath, Module)>
                                 3 => vec![crate::refmodel::field("arr", Type::ident(wide).array(2), None, true), crate::refmodel::field("_", Type::Unknown(*wsz), None, false)],
                                 // zero-sized, but as aligned as its declaration says / as its only field
                                 4 => vec![],
-                                _ => vec![crate::refmodel::field("none", Type::ident(wide).array(0), None, true)],
+                                5 => vec![crate::refmodel::field("none", Type::ident(wide).array(0), None, true)],
+                                // a declared size that suits the fields but not the type's alignment
+                                _ => vec![crate::refmodel::field("a", Type::ident("u32"), None, true), crate::refmodel::field("b", Type::ident("u32"), None, true), crate::refmodel::field("c", Type::ident("u32"), None, true)],
                             };
                             let mut inner = TypeDefinition::new(inner_fields);
+                            let mut inner_attrs = vec![];
                             if let Some(a) = inner_align {
-                                inner = inner.with_attributes([Attribute::align(a)]);
+                                inner_attrs.push(Attribute::align(a));
+                            }
+                            if inner_shape >= 6 {
+                                inner_attrs.push(Attribute::size(if inner_shape == 6 { 12 } else { 20 }));
+                            }
+                            if !inner_attrs.is_empty() {
+                                inner = inner.with_attributes(Attributes(inner_attrs));
                             }
                             defs.push(ItemDefinition::new((Visibility::Public, "Inner"), inner));
                             let outer_fields = match outer_shape {
